@@ -270,7 +270,9 @@ HARNESSES = {
     "part-combinations": ([("part.filter", 0), ("part2.filter", 1)], [("part2.filter", 0), ("part.filter", 1)]),
     "same-rule-twice": ([("test r1", 0)], [("test r1", 0)]),
 }
-BOUND2 = ("get-vs-filter-vs-validate", "two-filters", "same-rule-twice", "part-combinations")
+# two preemptions: the three smallest harnesses (0.3-0.7 k points -> 4*10^5 schedules); for the larger ones
+# (1.2-2.6 k points -> 10^6+ schedules each at ~15 ms) bound 2 is not run -- stated in the evidence, not capped silently
+BOUND2 = ("two-filters", "same-rule-twice", "part-combinations")
 
 
 def _op_index(name, di):
